@@ -34,14 +34,24 @@ func genSchema(r *common.Rand) *x.Schema {
 		{Name: "tags", T: x.List(x.Named("String")), Def: optDef(r, 1, 3, vlist(vstr("t")))},
 		{Name: "e", T: x.Named("Color"), Def: optDef(r, 1, 2, venum("GREEN"))},
 	}}
+	reqNoDefault := false
 	if r.Chance(1, 3) {
-		inner.Inputs = append(inner.Inputs, x.IV{Name: "req", T: x.NN(x.Named("Int")), Def: optDef(r, 1, 2, vint(9))})
+		iv := x.IV{Name: "req", T: x.NN(x.Named("Int")), Def: optDef(r, 1, 2, vint(9))}
+		reqNoDefault = iv.Def == nil
+		inner.Inputs = append(inner.Inputs, iv)
 	}
 	add(inner)
+	// default values of type Inner must be valid Inner values
+	innerDef := func(kv ...x.VKV) *x.Val {
+		if reqNoDefault {
+			kv = append(kv, x.VKV{K: "req", V: vint(2)})
+		}
+		return vobj(kv...)
+	}
 	filter := &x.TD{Kind: "input", Name: "Filter", Inputs: []x.IV{
 		{Name: "n", T: x.Named("Int")},
 		{Name: "s", T: x.Named("String"), Def: optDef(r, 1, 2, vstr("d"))},
-		{Name: "inner", T: x.Named("Inner"), Def: optDef(r, 1, 3, vobj(x.VKV{K: "x", V: vint(1)}))},
+		{Name: "inner", T: x.Named("Inner"), Def: optDef(r, 1, 3, innerDef(x.VKV{K: "x", V: vint(1)}))},
 		{Name: "inners", T: x.List(x.Named("Inner"))},
 		{Name: "ids", T: x.List(x.NN(x.Named("ID")))},
 		{Name: "deep", T: x.List(x.List(x.Named("Int")))},
@@ -54,7 +64,7 @@ func genSchema(r *common.Rand) *x.Schema {
 	}
 	if r.Chance(1, 3) {
 		// the inner default of a field whose own default is an object with missing members
-		filter.Inputs = append(filter.Inputs, x.IV{Name: "din", T: x.NN(x.Named("Inner")), Def: vobj(x.VKV{K: "y", V: vstr("q")})})
+		filter.Inputs = append(filter.Inputs, x.IV{Name: "din", T: x.NN(x.Named("Inner")), Def: innerDef(x.VKV{K: "y", V: vstr("q")})})
 	}
 	add(filter)
 
@@ -298,7 +308,13 @@ func (g *gen) freshVarName() string {
 func (g *gen) constLit(t *x.Ty, nullable bool, depth int) *x.Val {
 	save := g.pNested
 	g.pNested = 0
-	defer func() { g.pNested = save }()
+	before := g.flags["lit_listcoerce"]
+	defer func() {
+		g.pNested = save
+		if g.flags["lit_listcoerce"] > before {
+			g.flag("default_listcoerce")
+		}
+	}()
 	return g.lit(t, nullable, depth, false)
 }
 
@@ -309,8 +325,13 @@ func (g *gen) lit(t *x.Ty, nullable bool, depth int, inner bool) *x.Val {
 		g.flag("nestedvar")
 		return g.useVar(t)
 	}
+	return g.litNoVar(t, nullable, depth)
+}
+
+// litNoVar: the value itself is not a variable (variables may occur deeper inside it)
+func (g *gen) litNoVar(t *x.Ty, nullable bool, depth int) *x.Val {
 	if t.K == 2 {
-		return g.lit(t.Of, false, depth, inner)
+		return g.litNoVar(t.Of, false, depth)
 	}
 	if nullable && g.r.Chance(1, 12) {
 		g.flag("lit_null")
@@ -318,13 +339,22 @@ func (g *gen) lit(t *x.Ty, nullable bool, depth int, inner bool) *x.Val {
 	}
 	if t.K == 1 {
 		if g.r.Chance(1, 5) && t.Of.StripNN().K != 1 || g.r.Chance(1, 12) {
-			// single value where a list is expected (list input coercion)
+			// single value where a list is expected (list input coercion); a variable of the item
+			// type would not be a valid use there
 			g.flag("lit_listcoerce")
-			return g.lit(t.Of, false, depth+1, inner)
+			return g.litNoVar(t.Of, false, depth+1)
 		}
 		out := &x.Val{K: "list"}
+		isObj := false
+		if td := g.s.Type(t.Of.Base()); td != nil && td.Kind == "input" && t.Of.StripNN().K == 0 {
+			isObj = true
+		}
 		for i, n := 0, g.r.Pick(4); i < n; i++ {
-			out.L = append(out.L, g.lit(t.Of, t.Of.Nullable(), depth+1, true))
+			v := g.lit(t.Of, t.Of.Nullable(), depth+1, true)
+			if isObj && v.K == "null" {
+				g.flag("null_in_object_list")
+			}
+			out.L = append(out.L, v)
 		}
 		return out
 	}
@@ -388,8 +418,16 @@ func (g *gen) jsonVal(t *x.Ty, nullOK bool, depth int) *x.J {
 			return g.jsonVal(t.Of, false, depth+1)
 		}
 		out := &x.J{K: 'a'}
+		isObj := false
+		if td := g.s.Type(t.Of.Base()); td != nil && td.Kind == "input" && t.Of.StripNN().K == 0 {
+			isObj = true
+		}
 		for i, n := 0, g.r.Pick(4); i < n; i++ {
-			out.A = append(out.A, g.jsonVal(t.Of, t.Of.Nullable(), depth+1))
+			v := g.jsonVal(t.Of, t.Of.Nullable(), depth+1)
+			if isObj && v.K == 'n' {
+				g.flag("null_in_object_list")
+			}
+			out.A = append(out.A, v)
 		}
 		return out
 	}
@@ -811,6 +849,14 @@ func genOperation(r *common.Rand, s *x.Schema) *genCase {
 	if r.Chance(1, 2) {
 		r.Shuffle(n, func(i, j int) { d.Order[i], d.Order[j] = d.Order[j], d.Order[i] })
 	}
+	for _, i := range d.Order {
+		if i == 1 {
+			g.flag("op_not_first")
+		}
+		if i == 0 {
+			break
+		}
+	}
 	if len(g.json.O) == 0 && r.Chance(1, 2) {
 		c.vars = nil
 	}
@@ -821,16 +867,22 @@ func genOperation(r *common.Rand, s *x.Schema) *genCase {
 
 // walkSelSets calls fn for every selection set of the document with its static parent type.
 func walkSelSets(s *x.Schema, d *x.Doc, fn func(parent string, sels *[]*x.Sel)) {
-	var walk func(parent string, sels *[]*x.Sel)
-	walk = func(parent string, sels *[]*x.Sel) {
-		fn(parent, sels)
+	walkSelSetsF(s, d, func(parent string, sels *[]*x.Sel, _ bool) { fn(parent, sels) })
+}
+
+// walkSelSetsF also reports whether the set lies inside a fragment with a type condition (inline
+// or definition) since the last field.
+func walkSelSetsF(s *x.Schema, d *x.Doc, fn func(parent string, sels *[]*x.Sel, inFrag bool)) {
+	var walk func(parent string, sels *[]*x.Sel, inFrag bool)
+	walk = func(parent string, sels *[]*x.Sel, inFrag bool) {
+		fn(parent, sels, inFrag)
 		td := s.Type(parent)
 		for _, sel := range *sels {
 			switch sel.K {
 			case 0:
 				if len(sel.Sels) > 0 && td != nil {
 					if fd := td.Field(sel.Name); fd != nil {
-						walk(fd.T.Base(), &sel.Sels)
+						walk(fd.T.Base(), &sel.Sels, false)
 					}
 				}
 			case 1:
@@ -838,15 +890,15 @@ func walkSelSets(s *x.Schema, d *x.Doc, fn func(parent string, sels *[]*x.Sel)) 
 				if c == "" {
 					c = parent
 				}
-				walk(c, &sel.Sels)
+				walk(c, &sel.Sels, inFrag || sel.Cond != "")
 			}
 		}
 	}
 	for _, o := range d.Ops {
-		walk("Query", &o.Sels)
+		walk("Query", &o.Sels, false)
 	}
 	for _, f := range d.Frags {
-		walk(f.On, &f.Sels)
+		walk(f.On, &f.Sels, true)
 	}
 }
 
@@ -869,13 +921,14 @@ func onlyFields(ss []*x.Sel) bool {
 
 // fragWrap: a contiguous run of selections is moved into an inline fragment or a named fragment
 // whose type condition the normaliser resolves at the same place.
-func (w *rewriter) fragWrap() bool {
+func (w *rewriter) fragWrap() string {
 	type site struct {
 		parent string
 		sels   *[]*x.Sel
+		inFrag bool
 	}
 	var sites []site
-	walkSelSets(w.s, w.d, func(p string, sels *[]*x.Sel) { sites = append(sites, site{p, sels}) })
+	walkSelSetsF(w.s, w.d, func(p string, sels *[]*x.Sel, in bool) { sites = append(sites, site{p, sels, in}) })
 	st := common.PickOf(w.r, sites)
 	ss := *st.sels
 	i := w.r.Pick(len(ss))
@@ -915,7 +968,10 @@ func (w *rewriter) fragWrap() bool {
 	ns = append(ns, repl)
 	ns = append(ns, ss[j:]...)
 	*st.sels = ns
-	return true
+	if st.inFrag {
+		return "fragwrap_in_fragment"
+	}
+	return "fragwrap"
 }
 
 func (w *rewriter) dupLeaf() bool {
@@ -1067,11 +1123,11 @@ func rewrite(r *common.Rand, s *x.Schema, c *genCase) (*genCase, []string) {
 	}
 	var kinds []string
 	for tries := 0; tries < 4 && len(kinds) == 0; tries++ {
-		if r.Chance(1, 2) && w.fragWrap() {
-			kinds = append(kinds, "fragwrap")
+		if r.Chance(1, 2) {
+			kinds = append(kinds, w.fragWrap())
 		}
-		if r.Chance(1, 3) && w.fragWrap() {
-			kinds = append(kinds, "fragwrap")
+		if r.Chance(1, 3) {
+			kinds = append(kinds, w.fragWrap())
 		}
 		if r.Chance(1, 2) && w.dupLeaf() {
 			kinds = append(kinds, "dupleaf")
